@@ -10,7 +10,7 @@ use std::io::{BufReader, BufWriter};
 use std::sync::atomic::{AtomicUsize, Ordering};
 use std::sync::{Arc, Mutex};
 use vh_common::*;
-use vrp_cli::extensions::import::read_csv_problem;
+use vrp_cli::extensions::import::import_problem;
 use vrp_cli::extensions::solve::config::{create_builder_from_config, read_config};
 use vrp_core::prelude::{Environment, Solution};
 use vrp_core::solver::Solver;
@@ -190,7 +190,8 @@ fn handle(case: &Value) -> Value {
             }
             "csv" => {
                 let (jobs, vehicles) = (case["jobs"].as_str().unwrap(), case["vehicles"].as_str().unwrap());
-                let problem = match read_csv_problem(BufReader::new(jobs.as_bytes()), BufReader::new(vehicles.as_bytes())) {
+                // through the import table of the command line (extensions/import/mod.rs): "csv" with the jobs and the vehicles table
+                let problem = match import_problem("csv", Some(vec![BufReader::new(jobs.as_bytes()), BufReader::new(vehicles.as_bytes())])) {
                     Ok(p) => p,
                     Err(e) => return json!({"status": "import-err", "error": e.to_string()}),
                 };
